@@ -221,11 +221,14 @@ func (db *DB) mergeCheck() error {
 
 // 获取 merge 临时目录路径, 与数据目录同级
 func (db *DB) mergePath() string {
-	// 获取数据目录的父目录路径
-	dir := filepath.Dir(filepath.Clean(db.options.DirPath))
-	// 获取数据目录名称
-	base := filepath.Base(db.options.DirPath)
-	return filepath.Join(dir, base+mergeDirName)
+	// 同一数据目录的不同写法 (末尾分隔符, "/.", 相对路径) 必须得到同一个 merge 目录,
+	// 否则以另一种写法打开时已完成的 merge 不会被接管, 之后再被当作最新结果接管而丢失数据
+	path := filepath.Clean(db.options.DirPath)
+	if abs, err := filepath.Abs(path); err == nil {
+		path = abs
+	}
+	// 父目录路径 + 数据目录名称
+	return filepath.Join(filepath.Dir(path), filepath.Base(path)+mergeDirName)
 }
 
 // 尝试加载 merge 临时目录
